@@ -71,6 +71,8 @@ def run(ctx: common.Ctx):
         'non-trivial = run reporting >= 1 peptide. Layer G checkpoints (see C01) on the graphs of the '
         'trypsin-noexc and lookahead-enzymes streams: no stage graph denotes a sequence outside the '
         'definition')
+    from . import rule_ref
+    rule_ref.check_rule_tables(ctx)
     base = dict(vary=True, per_tx=(1, 7), max_size=6, window=24, witness=False, as_frac=0.3)
     res = cv_checks.explore(ctx, ctx.n(200, 4000),
                             dict(base, exception=None, variations=['limits', 'timeout'], stages=True))
